@@ -130,15 +130,18 @@ theorem typed_export_seq_as_documented (s : JSrc) (d : Dest) (hwf : s.WF) (hd : 
 theorem typed_export_map_as_documented (s : JSrc) : mech s .map = docMap s := by
   cases hk : s.kind <;> simp [mech, mechMap, docMap, hk]
 
-/-- identity cache of the typed export methods — deliberately weaker than the property ("the same object, the same
-    destination type ⇒ the same Go value"): it excludes a Set exported into a Go map type, where the current code does
-    not cache (witness below; patch fixes/C13-set-exportToMap-identity-cache.diff). -/
-theorem typed_export_identity_cached_partial (k : SrcKind) (d : Dest) (h : ¬ (k = .set ∧ d = .map)) :
-    cachesTyped k d = true := by
+/-- identity cache of the typed export methods (since 6fa4053, no exception): every implementation class, into every
+    destination, enters the container it builds into the identity cache — "the same object, the same destination type
+    ⇒ the same Go value" at the level of the dispatch. -/
+theorem typed_export_identity_cached (k : SrcKind) (d : Dest) : cachesTyped k d = true := rfl
+
+/-- the code before 6fa4053 agreed with the current one everywhere except a Set into a Go map type … -/
+theorem cachesTypedOld_agrees (k : SrcKind) (d : Dest) (h : ¬ (k = .set ∧ d = .map)) :
+    cachesTypedOld k d = cachesTyped k d := by
   cases k <;> cases d <;> first | rfl | exact absurd ⟨rfl, rfl⟩ h
 
-/-- FINDING (current code): a Set reached twice through a map-typed destination within one ExportTo
-    (`var s = new Set([1]); [s, s]` into `[]map[interface{}]interface{}`) gives two different Go maps. -/
-theorem set_into_map_not_cached_witness : cachesTyped .set .map = false := rfl
+/-- REGRESSION RECORD (before 6fa4053): a Set reached twice through a map-typed destination within one ExportTo
+    (`var s = new Set([1]); [s, s]` into `[]map[interface{}]interface{}`) gave two different Go maps. -/
+theorem set_into_map_not_cached_prefix_witness : cachesTypedOld .set .map = false := rfl
 
 end GojaModel.C13
